@@ -280,10 +280,28 @@ class Run:
 # suite "queue": a fresh EventManager on the rig's loop
 def _init_queue():
     from rig import Rig
-    _patch()
-    if _W["rig"] is None:
-        _W["rig"] = Rig({}).start()
-        _W["n"] = 0
+    if _W.get("boot_error"):
+        return
+    try:
+        _patch()
+        if _W["rig"] is None:
+            _W.setdefault("n", 0)
+            _W["rig"] = Rig({}).start()
+    except BaseException as e:      # a tree on which MPF does not even boot: report it as data, do not kill the worker
+        _W["boot_error"] = "%s: %s" % (type(e).__name__, str(e)[:300])
+
+
+def _boot_failed():
+    return {"log": [], "pending": 0, "outst": [], "err": False, "qposts": [], "shared": False,
+            "boot_error": _W["boot_error"], "seen": [], "returned": [], "cbs": []}
+
+
+def _drop_rig(which):
+    try:
+        _W[which].stop()
+    except BaseException:
+        pass
+    _W[which] = None
 
 
 def gen_actions(rng, ev, nev, hids, in_queue_handler, kinds):
@@ -361,25 +379,39 @@ def run_queue(case):
     global CUR
     from mpf.core.events import EventManager
     _init_queue()
+    if _W.get("boot_error"):
+        return _boot_failed()
     rig = _W["rig"]
     _W["n"] += 1
     em = EventManager(rig.machine)
     run = Run(em, rig.loop, "c02_%d" % _W["n"])
     CUR = run
     try:
-        for ev, hid, prio, body in case["regs"]:
-            run.register(ev, hid, prio, body)
-        for batch in case["env"]:
-            if run.aborted:
-                break
-            run.execute(batch, None)
-            rig.advance(0.125)
+        try:
+            for ev, hid, prio, body in case["regs"]:
+                run.register(ev, hid, prio, body)
+            for batch in case["env"]:
+                if run.aborted:
+                    break
+                run.execute(batch, None)
+                rig.advance(0.125)
+        except Exception as e:          # an exception escaped from the event loop: the machine is gone
+            out = run.observe([])
+            out.update(qposts=run.qposts, shared=run.shared_used,
+                       loop_exception="%s: %s" % (type(e).__name__, str(e)[:300]))
+            run.aborted = True
+            _drop_rig("rig")
+            return out
         tasks = list(em._queue_tasks)
         out = run.observe(tasks)
         out["qposts"] = run.qposts
         out["shared"] = run.shared_used
-        run.cleanup(tasks)
-        rig.advance(0.125)
+        try:
+            run.cleanup(tasks)
+            rig.advance(0.125)
+        except Exception:
+            _drop_rig("rig")
+            return out
         if rig.exception():
             out["loop_exception"] = str(rig.exception())[:300]
             rig._exception = None
@@ -455,7 +487,7 @@ def log_ok(out):
 
 
 def coq_queue(case, out):
-    if out.get("loop_exception") or not log_ok(out):
+    if out.get("loop_exception") or out.get("boot_error") or not log_ok(out):
         return None
     return "(%s, %s)" % (c_input(case["regs"], case["env"]), c_outcome(out))
 
@@ -464,6 +496,8 @@ def coq_queue(case, out):
 def oracle_log(out, regs, removed_possible, check_live=True):
     """regs: {event: [(hid, prio)] in registration order}, out: observation of the implementation"""
     fails = []
+    if out.get("boot_error"):
+        return [{"sig": "machine-does-not-boot", "what": "MPF does not boot on this tree: " + out["boot_error"]}]
     if out.get("loop_exception"):
         return [{"sig": "loop-exception", "what": "exception in the event loop: " + out["loop_exception"]}]
     if out["err"]:
@@ -539,7 +573,7 @@ def oracle_queue(case, out):
     for ev, hid, prio, body in case["regs"]:
         regs.setdefault(ev, []).append((hid, prio))
     fails = oracle_log(out, regs, True, check_live=not out.get("shared"))
-    if not out.get("err") and not out.get("loop_exception") and not _uses_remove(case):
+    if not out.get("err") and not out.get("loop_exception") and not out.get("boot_error") and not _uses_remove(case):
         # without removals: the callback comes after ALL registered handlers of the event
         ev_of = {}
         # (posts carry the event in the script; recover it from the first invoked handler)
@@ -610,9 +644,14 @@ def _boot_mode_rig():
 
 
 def _init_mode():
-    _patch()
-    if _W["mrig"] is None:
-        _boot_mode_rig()
+    if _W.get("boot_error"):
+        return
+    try:
+        _patch()
+        if _W["mrig"] is None:
+            _boot_mode_rig()
+    except BaseException as e:
+        _W["boot_error"] = "%s: %s" % (type(e).__name__, str(e)[:300])
 
 
 def gen_mode(rng, tier, i):
@@ -649,6 +688,8 @@ def gen_mode(rng, tier, i):
 def run_mode(case):
     global CUR
     _init_mode()
+    if _W.get("boot_error"):
+        return dict(_boot_failed(), resolved=[], mode_active=False, mode_starting=False, mode_holds=False)
     rig = _W["mrig"]
     em = rig.machine.events
     mode = rig.machine.modes[case["mode"]]
@@ -656,6 +697,21 @@ def run_mode(case):
     run.evname = {1: "go_" + case["mode"], 2: "mode_%s_starting" % case["mode"]}
     before = list(em._queue_tasks)
     CUR = run
+    reboot = False
+    try:
+        return _run_mode_inner(case, rig, em, mode, run, before)
+    except Exception as e:
+        run.aborted = True
+        out = run.observe([])
+        out.update(qposts=run.qposts, shared=False, resolved=[], mode_active=False, mode_starting=False,
+                   mode_holds=False, loop_exception="%s: %s" % (type(e).__name__, str(e)[:300]))
+        _drop_rig("mrig")
+        return out
+    finally:
+        CUR = None
+
+
+def _run_mode_inner(case, rig, em, mode, run, before):
     reboot = False
     try:
         for ev, hid, prio, body in case["regs"]:
@@ -704,13 +760,8 @@ def run_mode(case):
             reboot = True
         return out
     finally:
-        CUR = None
         if reboot:
-            try:
-                rig.stop()
-            except BaseException:
-                pass
-            _W["mrig"] = None
+            _drop_rig("mrig")
 
 
 def mode_regs(case):
@@ -723,7 +774,7 @@ def mode_regs(case):
 
 
 def coq_mode(case, out):
-    if out.get("loop_exception") or not log_ok(out):
+    if out.get("loop_exception") or out.get("boot_error") or not log_ok(out):
         return None
     env = coqlist(coqlist(c_action(a) for a in b) for b in out["resolved"])
     return "((%s, %s), %s)" % (mode_regs(case), env, c_outcome(out))
@@ -734,7 +785,7 @@ def oracle_mode(case, out):
     for ev, hid, prio, body in case["regs"]:
         regs[ev].append((hid, prio))
     fails = oracle_log(out, regs, False, check_live=False)
-    if out.get("loop_exception") or out["err"]:
+    if out.get("loop_exception") or out.get("boot_error") or out["err"]:
         return fails
     cbs = [o[1] for o in out["log"] if o[0] == "CB"]
     started = any(o[0] == "I" and o[2] == MODE_HID for o in out["log"])
@@ -836,6 +887,8 @@ def _canon_kw(kwargs):
 def run_sync(case):
     from mpf.core.events import EventManager
     _init_queue()
+    if _W.get("boot_error"):
+        return _boot_failed()
     rig = _W["rig"]
     _W["n"] += 1
     em = EventManager(rig.machine)
@@ -863,8 +916,12 @@ def run_sync(case):
                     "evr": _tag_result(kwargs.get("ev_result"))})
     kw = {"k%d" % k: v for k, v in case["kw"]}
     post = {"relay": em.post_relay, "boolean": em.post_boolean, "plain": em.post}[case["type"]]
-    post(name, cb, **kw)
-    rig.advance(0.125)
+    try:
+        post(name, cb, **kw)
+        rig.advance(0.125)
+    except Exception as e:
+        _drop_rig("rig")
+        return {"seen": seen, "returned": returned, "cbs": cbs, "loop_exception": "%s: %s" % (type(e).__name__, str(e)[:300])}
     for k in keys:
         em.remove_handler_by_key(k)
     return {"seen": seen, "returned": returned, "cbs": cbs}
@@ -899,7 +956,7 @@ def c_beh(b):
 
 
 def coq_sync(case, out):
-    if len(out["cbs"]) != 1:
+    if out.get("loop_exception") or out.get("boot_error") or len(out["cbs"]) != 1:
         return None
     cb = out["cbs"][0]
     typ = {"relay": "TRelay", "boolean": "TBoolean", "plain": "TPlain"}[case["type"]]
@@ -917,6 +974,10 @@ def coq_sync(case, out):
 
 def oracle_sync(case, out):
     fails = []
+    if out.get("boot_error"):
+        return [{"sig": "machine-does-not-boot", "what": "MPF does not boot on this tree: " + out["boot_error"]}]
+    if out.get("loop_exception"):
+        return [{"sig": "loop-exception", "what": "exception in the event loop: " + out["loop_exception"]}]
     if len(out["cbs"]) != 1:
         return [{"sig": "sync-callback-count", "what": "callback fired %d times" % len(out["cbs"])}]
     cb = out["cbs"][0]
